@@ -16,10 +16,10 @@ import sys
 
 from .. import core, tlc, traceval
 
-BAD_KINDS = ["pyobject", "pyapply", "pynew", "pyname", "pymodule", "pytuple", "pycomplex", "pybytes", "pystr", "pyint", "pylist", "pydict", "pyunicode", "pylong", "pyfloat", "pybool", "pynone", "unregistered", "unregistered_dotted"]
+BAD_KINDS = ["pyobject", "pyapply", "pynew", "pyname", "pymodule", "pytuple", "pycomplex", "pybytes", "pystr", "pyint", "pylist", "pydict", "pyunicode", "pylong", "pyfloat", "pybool", "pynone", "unregistered", "unregistered_dotted", "unregistered_prefixed"]
 NAMED = ["pyobject", "pyapply", "pynew", "pyname", "pymodule", "unregistered_dotted"]
 TARGETS = ["sentinel", "canary_class", "os_system", "unimported", "plugin_class"]
-POSITIONS = ["pipeline_item", "lazy_arg", "lazy_nested", "lazyfn_nested", "eager_arg", "type_arg", "logging", "root", "mapkey", "section_value", "merge_value", "tagkey", "second_document"]
+POSITIONS = ["pipeline_item", "lazy_arg", "lazy_nested", "lazyfn_nested", "eager_arg", "type_arg", "logging", "root", "mapkey", "section_value", "merge_value", "tagkey", "second_document", "dupkey", "merge_shadowed"]
 INVARIANTS = ["OnlyRegistered", "BadIsRejected"]
 
 
@@ -31,6 +31,8 @@ def tag_string(kind, target_name="x.y"):
         "pytuple": base + "tuple", "pycomplex": base + "complex", "pybytes": base + "bytes", "pystr": base + "str", "pyint": base + "int",
         "pylist": base + "list", "pydict": base + "dict", "pyunicode": base + "unicode", "pylong": base + "long", "pyfloat": base + "float",
         "pybool": base + "bool", "pynone": base + "none", "unregistered": "!NotRegisteredAnywhere", "unregistered_dotted": "!" + target_name,
+        # an unregistered tag that merely BEGINS with a registered one
+        "unregistered_prefixed": "!VCtrlX",
     }[kind]
 
 
@@ -117,6 +119,12 @@ def render(doc, n, marker):
             sections["pipeline"].insert(0, "!VCtrl {? %s : 1}" % y if j % 2 == 0 else "!VEager {? %s : 1}" % y)
         elif p == "second_document":
             sections["_second"] = y
+        elif p == "dupkey":
+            # a duplicate key: the earlier value is shadowed by the later one, but it is there
+            sections["__config_test"]["d%d" % j] = "{k: %s, k: 1}" % y
+        elif p == "merge_shadowed":
+            # an entry of a merged mapping that an explicit key overrides
+            sections["__config_test"]["o%d" % j] = "{<<: {k: %s}, k: 1}" % y
         elif p == "merge_value":
             sections["__config_test"]["m%d" % j] = "{<<: %s, b: 2}" % y
     if sections["logging"]:
